@@ -187,7 +187,7 @@ PROPS = {
         "trusted_base": ["Verus 0.2026.09.13 + Z3 (unit H: extracted into_protocol_request and the endpoint closure of Client::send)"],
         "assumptions": [
             "http-types is third-party: the request is an opaque value seen through assumed accessor contracts (is_empty = declared length known and zero, take_body/into_bytes read the body to its end, method(), url(), Display of Method/Url); a body declared empty reads as empty (axiom empty_body_reads_empty)",
-            "rule X13: the header iterator chain `self.iter().flat_map(|(name, values)| values.iter().map(|value| HttpHeader{..})).collect()` is replaced, by a rule keyed to exactly that text, by an ASSUMED call that builds one HttpHeader per (name, value) pair in the header map's iteration order; any other shape of that chain leaves the check undecided",
+            "the header iterator chain `self.iter().flat_map(|(name, values)| values.iter().map(|value| HttpHeader{..})).collect()` is verified as written: the two closures get contracts taken from the property (each protocol header is the name and one value as given; every value of a header), the adapters flat_map / map / collect are ASSUMED parametric contracts ('if the closure maps every element as its contract says, the adapter produces exactly those, in order'); another SHAPE of the chain (e.g. `.map` at the outer level, seed C14_1) leaves the check undecided",
             "rule X17 (synchronous projection) as for C16",
         ],
         "not_decided": [
